@@ -227,7 +227,7 @@ pub fn run(ctx: &Ctx, rep: &mut Report) {
                     Err(_) => (false, false),
                 };
                 if nontrivial {
-                    r.distinct.insert(al::mix64(al::mix64(al::fnv64(name.as_bytes()) ^ pairing as u64, al::fnv64(key)), al::fnv64(block)));
+                    r.distinct_count += 1; // star pairs are deduplicated by the enumerator
                 }
                 if r.samples.is_empty() && ii == 0 && pi < 2 {
                     r.sample(json!({"subject":name,"pairing":pairing_name(pairing),"key":hex(key),"block":hex(block),"check":"D(E(b))==b && E(D(b))==b"}));
